@@ -132,6 +132,11 @@ func c12(tier string) []*explore.Scenario {
 	}
 	out = append(out, c12Interference(1), c12MethodNames(), c12MethodGrammar())
 	out = append(out, c12ExpiredStream(true, 1), c12ExpiredStream(false, 2))
+	// the same sequences against a server with stats handlers / interceptors installed
+	for _, si := range []int{0, 13, 17, 20} { // valid-unary, open-bidi, body, reset
+		out = append(out, withConfig([]string{"stats", "stats2+chain+services"}, c12Seq(si, 1, maxLen, 0))...)
+	}
+	out = append(out, withConfig([]string{"stats", "stats2+chain+services"}, c12Long("cycle"), c12ExpiredStream(true, 0))...)
 	for _, mode := range []string{"repeat", "cycle", "cycle-fresh"} {
 		out = append(out, c12Long(mode))
 	}
